@@ -534,6 +534,20 @@ class C19(Check):
                 xs2, snap["XF"][0])
             cmp(f"CP_PLSR.transform/y-scores-differ-from-Y_factors0/{ycls}", "transform(X_train, Y_train)[1] vs Y_factors[0]",
                 ys2, snap["YF"][0])
+            # the same identity for a fit stopped early by a loose tolerance (scores and loadings of the LAST inner iterate belong together)
+            try:
+                from tensorly.regression import CP_PLSR
+
+                for loose in (1e-2, 0.3):
+                    ml = CP_PLSR(n_components=nc, tol=loose, n_iter_max=50, random_state=0, verbose=False)
+                    ml.fit(X.copy(), Y.copy())
+                    lx, ly = ml.transform(X.copy(), Y.copy())
+                    cmp(f"CP_PLSR.transform/x-scores-differ-from-X_factors0/loose-tol/{xcls}", f"tol={loose}: transform(X_train, Y_train)[0] vs X_factors[0]",
+                        lx, np.array(ml.X_factors[0], dtype=float))
+                    cmp(f"CP_PLSR.transform/y-scores-differ-from-Y_factors0/loose-tol/{ycls}", f"tol={loose}: transform(X_train, Y_train)[1] vs Y_factors[0]",
+                        ly, np.array(ml.Y_factors[0], dtype=float))
+            except Exception as e:
+                ctx.violation(f"CP_PLSR.fit/raises/loose-tol/{xcls}", f"{case}: {type(e).__name__}: {e}")
             # unit-norm loadings (python-float norms)
             for mode, f in list(enumerate(snap["XF"]))[1:]:
                 for c in range(nc):
